@@ -15,13 +15,15 @@ pub const GRID: &[i128] = &[
 
 pub struct Rep {
     pub fails: BTreeMap<String, Vec<String>>,
+    pub names: std::collections::BTreeSet<String>,
     pub evals: u64,
     pub per_obligation_cap: usize,
 }
 impl Rep {
-    pub fn new() -> Self { Rep { fails: BTreeMap::new(), evals: 0, per_obligation_cap: 25 } }
+    pub fn new() -> Self { Rep { fails: BTreeMap::new(), names: Default::default(), evals: 0, per_obligation_cap: 25 } }
     pub fn check(&mut self, name: &str, ok: bool, input: impl FnOnce() -> String) {
         self.evals += 1;
+        if !self.names.contains(name) { self.names.insert(name.to_string()); }
         if !ok {
             let v = self.fails.entry(name.to_string()).or_default();
             if v.len() < self.per_obligation_cap { v.push(input()); }
@@ -31,6 +33,7 @@ impl Rep {
         for (name, inputs) in &self.fails {
             for i in inputs { println!("REPLAY-FAIL unit={unit} obligation={name} inputs=[{i}]"); }
         }
+        println!("REPLAY-OBLIGATIONS unit={unit} names={}", self.names.iter().cloned().collect::<Vec<_>>().join(","));
         println!("REPLAY-SUMMARY unit={unit} mode=boundary-grid evaluations={} failing={}", self.evals, self.fails.len());
         if self.fails.is_empty() { 0 } else { 1 }
     }
@@ -38,6 +41,7 @@ impl Rep {
 
 pub fn run(obligation: &str) -> i32 {
     let mut rep = Rep::new();
+    if obligation.starts_with("C02.needs_unnesting") { c02_needs_unnesting(&mut rep); return rep.finish("C02_unnesting"); }
     if obligation.starts_with("C02.") || obligation.starts_with("C05.") { c02_c05_assembly(&mut rep); return rep.finish("C02_C05_assembly"); }
     if obligation.starts_with("C14.") { c14_numbering(&mut rep); return rep.finish("C14_numbering"); }
     if obligation.starts_with("C06.int_type_token") { c06_int_type_token(&mut rep); return rep.finish("C06.int_type_token"); }
@@ -294,5 +298,65 @@ fn c14_numbering(rep: &mut Rep) {
             rep.check("C14.assign.root_numbering_x680_20_3", rn == wr, desc);
             rep.check("C14.assign.additions_numbering_x680_20_6", rn != wr || an == wa, desc);
         }
+    }
+}
+
+// ---------------------------------------------------------------------------------------------- C02 needs_unnesting
+fn reaches_constructed(ty: &ASN1Type) -> bool {
+    match ty {
+        ASN1Type::Enumerated(_) | ASN1Type::Choice(_) | ASN1Type::Sequence(_) | ASN1Type::Set(_) => true,
+        ASN1Type::SequenceOf(s) | ASN1Type::SetOf(s) => reaches_constructed(&s.element_type),
+        _ => false,
+    }
+}
+fn reaches_decorated(ty: &ASN1Type) -> bool {
+    match ty {
+        ASN1Type::SequenceOf(s) | ASN1Type::SetOf(s) => !s.element_type.constraints().is_empty() || s.element_tag.is_some() || reaches_decorated(&s.element_type),
+        _ => false,
+    }
+}
+fn describe(ty: &ASN1Type) -> String {
+    match ty {
+        ASN1Type::SequenceOf(s) => format!("SEQUENCE OF{} {}", if s.element_tag.is_some() { " [tag]" } else { "" }, describe(&s.element_type)),
+        ASN1Type::SetOf(s) => format!("SET OF{} {}", if s.element_tag.is_some() { " [tag]" } else { "" }, describe(&s.element_type)),
+        ASN1Type::Integer(i) => if i.constraints.is_empty() { "INTEGER".into() } else { "INTEGER(constrained)".into() },
+        other => other.as_str().into_owned(),
+    }
+}
+fn c02_needs_unnesting(rep: &mut Rep) {
+    let some_constraint = || Constraint::Subtype(ElementSetSpecs { set: ElementOrSetOperation::Element(SubtypeElements::SingleValue { value: ASN1Value::Integer(1), extensible: false }), extensible: false });
+    let leaves = || -> Vec<ASN1Type> { vec![
+        ASN1Type::Null,
+        ASN1Type::Boolean(Boolean { constraints: vec![] }),
+        ASN1Type::Integer(Integer { constraints: vec![], distinguished_values: None }),
+        ASN1Type::Integer(Integer { constraints: vec![some_constraint()], distinguished_values: None }),
+        ASN1Type::Sequence(SequenceOrSet { components_of: vec![], extensible: None, constraints: vec![], members: vec![] }),
+        ASN1Type::Set(SequenceOrSet { components_of: vec![], extensible: None, constraints: vec![], members: vec![] }),
+        ASN1Type::Choice(Choice { extensible: None, options: vec![], constraints: vec![] }),
+        ASN1Type::Enumerated(Enumerated { members: vec![], extensible: None, constraints: vec![] }),
+        ASN1Type::ElsewhereDeclaredType(DeclarationElsewhere { parent: None, module: None, identifier: "T".into(), constraints: vec![] }),
+    ] };
+    let tag = || AsnTag { environment: TaggingEnvironment::Explicit, tag_class: TagClass::ContextSpecific, id: 1 };
+    let mut level: Vec<ASN1Type> = leaves();
+    let mut all: Vec<ASN1Type> = leaves();
+    for _depth in 0..3 {
+        let mut next = vec![];
+        for inner in &level {
+            for set in [false, true] {
+                for tagged in [false, true] {
+                    let of = SequenceOrSetOf { constraints: vec![], element_type: Box::new(inner.clone()), element_tag: if tagged { Some(tag()) } else { None }, is_recursive: false };
+                    next.push(if set { ASN1Type::SetOf(of) } else { ASN1Type::SequenceOf(of) });
+                }
+            }
+        }
+        all.extend(next.iter().cloned());
+        level = next;
+    }
+    for ty in &all {
+        let r = rasn_compiler::verif_hooks::hook_needs_unnesting(ty);
+        let desc = || format!("type={} -> needs_unnesting={r}", describe(ty));
+        rep.check("C02.needs_unnesting.hoists_constructed_at_any_depth", !reaches_constructed(ty) || r, desc);
+        rep.check("C02.needs_unnesting.hoists_decorated_elements_at_any_depth", !reaches_decorated(ty) || r, desc);
+        rep.check("C02.needs_unnesting.only_those", !r || reaches_constructed(ty) || reaches_decorated(ty), desc);
     }
 }
